@@ -3,8 +3,9 @@ package main
 // C13, exit wiring of the real main(): flag handling, the order of the stages,
 // the exit status of every failing stage, and what is written to the output.
 // In the engine main() runs on an argument vector built from symbolic flag
-// booleans; input(), output() and imports.Process are replaced by in-memory
-// stubs (declared). Natively the same harness runs main() on real files in a
+// booleans; the grammar text is a virtual standard input (input(), bufio and
+// io.ReadAll are the real code), output() and imports.Process are replaced by
+// in-memory stubs (declared). Natively the same harness runs main() on real files in a
 // scratch directory with the real goimports, so every counterexample replays.
 //
 // Oracle: the stages replayed by symGenerate (front end, optimizer, builder) on
@@ -36,21 +37,6 @@ var c13MainCases = []c13MainCase{
 	{"throw_recover_state", "{\npackage p\n}\nA <- #{ return nil } B //{l} 'x'\nB <- 'b' / %{l}\n", false},
 	{"undefined_ref", "{\npackage p\n}\nA <- 'a' C\nB <- 'b'\n", false},
 }
-
-type c13RC struct {
-	data []byte
-	off  int
-}
-
-func (r *c13RC) Read(p []byte) (int, error) {
-	if r.off >= len(r.data) {
-		return 0, io.EOF
-	}
-	n := copy(p, r.data[r.off:])
-	r.off += n
-	return n, nil
-}
-func (r *c13RC) Close() error { return nil }
 
 type c13WC struct {
 	buf    []byte
@@ -205,9 +191,9 @@ func Harness_C13main(arg int) {
 	diag := ""
 	wrote := false
 	if symIsSymbolic() {
-		rc := &c13RC{data: text}
+		// the grammar arrives on (virtual) standard input: input(), bufio and io.ReadAll are the real code
 		wc := &c13WC{}
-		symStub("github.com/mna/pigeon.input", func(filename string) (string, io.ReadCloser) { return "stdin", rc })
+		symSetStdin(text)
 		symStub("github.com/mna/pigeon.output", func(filename string) io.WriteCloser { return wc })
 		symStub("golang.org/x/tools/imports.Process", func(filename string, src []byte, opt *imports.Options) ([]byte, error) {
 			if strings.Contains(string(src), c13BadGoMarker) {
@@ -288,4 +274,64 @@ func c13MainAsserts(cs c13MainCase, f symFlags, noBuild bool, want symGen, altOK
 		symAssert(!wrote, "C13: -x (parse only) wrote output")
 	}
 	symReach("end")
+}
+
+// Harness_C13maintext: the whole grammar text is symbolic and arrives on the
+// standard input of the real main() (default flags, -x symbolic): whatever the
+// bytes are, the tool exits with a status that fits the stage results and
+// without a Go panic. arg = length*16 + bucket of the first byte.
+func Harness_C13maintext(arg int) {
+	n, b := arg/c13Buckets, arg%c13Buckets
+	text := symBytes("g", n)
+	if n == 0 {
+		symAssume(b == 0)
+	} else {
+		symAssume(text[0] >= byte(b*16))
+		symAssume(text[0] <= byte(b*16+15))
+	}
+	noBuild := symBool("noBuild")
+	symSkipStatic = true
+	want := symGenerate(append([]byte(nil), text...), symFlags{})
+	if want.panicked {
+		symNote("stage panic")
+		symReach("end")
+		return
+	}
+	args := []string{"pigeon"}
+	if noBuild {
+		args = append(args, "-x")
+	}
+	cs := c13MainCase{name: "text"}
+	if symIsSymbolic() {
+		wc := &c13WC{}
+		symSetStdin(text)
+		symStub("github.com/mna/pigeon.output", func(filename string) io.WriteCloser { return wc })
+		symStub("golang.org/x/tools/imports.Process", func(filename string, src []byte, opt *imports.Options) ([]byte, error) { return src, nil })
+		os.Args = args
+		code, panicked, pmsg := c13RunMain()
+		c13MainAsserts(cs, symFlags{}, noBuild, want, true, code, panicked, pmsg, wc.buf, wc.writes > 0, symOSOutput(), true)
+		return
+	}
+	dir, err := os.MkdirTemp("", "c13maintext")
+	if err != nil {
+		panic(err)
+	}
+	defer os.RemoveAll(dir)
+	in, out, errp := filepath.Join(dir, "g.peg"), filepath.Join(dir, "out.go"), filepath.Join(dir, "stderr")
+	if err := os.WriteFile(in, text, 0o644); err != nil {
+		panic(err)
+	}
+	ef, err := os.Create(errp)
+	if err != nil {
+		panic(err)
+	}
+	oldErr, oldArgs := os.Stderr, os.Args
+	os.Stderr = ef
+	os.Args = append(append(args, "-o", out), in)
+	code, panicked, pmsg := c13RunMain()
+	os.Stderr, os.Args = oldErr, oldArgs
+	ef.Close()
+	eb, _ := os.ReadFile(errp)
+	ob, oerr := os.ReadFile(out)
+	c13MainAsserts(cs, symFlags{}, noBuild, want, true, code, panicked, pmsg, ob, oerr == nil && len(ob) > 0, string(eb), false)
 }
